@@ -1399,7 +1399,7 @@ class Sinwave(Function):
         self.amplitude = amplitude
         self.period = period
 
-    def term(self, time="t"): return "( np.sin(2*np.pi / {} * (({})-model.starttime) ) * {} )".format(
+    def term(self, time="t"): return "( np.sin(2*np.pi / ({}) * (({})-model.starttime) ) * ({}) )".format(
         extractTerm(self.period, time), time, extractTerm(self.amplitude, time))
 
 
@@ -1408,7 +1408,7 @@ class Coswave(Function):
         self.amplitude = amplitude
         self.period = period
 
-    def term(self, time="t"): return "( np.cos(2*np.pi / {} * (({})-model.starttime) ) * {} )".format(
+    def term(self, time="t"): return "( np.cos(2*np.pi / ({}) * (({})-model.starttime) ) * ({}) )".format(
         extractTerm(self.period, time), time, extractTerm(self.amplitude, time))
 
 
